@@ -81,7 +81,20 @@ package commonmark
 //@          && len(n.children) == 1 && !isnil(n.children[0]) && n.children[0].kind == TextKind
 //@          && n.children[0].span.Start == n.span.Start + 1 && n.children[0].span.End == n.span.End - 1))
 
+// ---------------------------------------------------------------------------
+// Character boundaries (C02): in valid UTF-8 a continuation byte (10xxxxxx)
+// always follows a byte >= 0x80, so a position is a character boundary when it
+// is the end of the text or does not hold a continuation byte.
+// ---------------------------------------------------------------------------
+
+//@ spec IsCont(c int) bool = 0x80 <= c && c < 0xC0
+//@ spec UTF8OK(s []byte) bool = forall k in [0, len(s)): IsCont(s[k]) ==> (k > 0 && s[k - 1] >= 0x80)
+//@ spec Boundary(s []byte, p int) bool = p >= len(s) || !IsCont(s[p])
+//@ spec SpanOnBoundaries(n *Inline, s []byte) bool = Boundary(s, n.span.Start) && Boundary(s, n.span.End)
+
 //@ func (*InlineParser).parseBackslash
+//@   requires[utf8] UTF8OK(state.source)
+//@   callsite (*inlineState).addToRoot: requires[boundary] SpanOnBoundaries($1, state.source)
 //@   requires !isnil(state) && !isnil(state.root) && state.parentMap != nil && 0 <= start && start < len(state.source) && state.source[start] == '\\'
 //@   modifies map state.parentMap, state.root.children, state.root.children[len(state.root.children):cap(state.root.children)], state.ignoreNextIndent, alloc
 //@   callsite (*inlineState).addToRoot: requires[shape] LeafShape($1, state.source)
@@ -89,15 +102,19 @@ package commonmark
 //@   ensures[progress] end > start && end <= start + 2
 //@   nosafety index the cursor stays inside the unparsed run (assumption A-C02-1, DESIGN 7.2)
 //@   nosafety nil the unparsed nodes of a block are never nil (assumption A-NODEINV, C05)
-//@   serves C13, C04
+//@   serves C13, C02, C04
 
 //@ func (*InlineParser).parse
 //@   requires !isnil(container)
+//@   requires[utf8] UTF8OK(source)
 //@   modifies everything
 //@   havoccall (*InlineParser).parseDelimiterRun, (*InlineParser).parseEndBracket, (*InlineParser).parseCodeSpan, (*InlineParser).collectCodeSpan, parseHTMLTag, nodeIndexForPosition, (*InlineParser).processEmphasis keeps inlineState.source, inlineState.root, inlineState.parentMap
 //@   havoccall collectRawHTML keeps inlineState.source, inlineState.root, inlineState.parentMap, Inline.kind
 //@   callsite (*inlineState).addToRoot: requires[shape] LeafShape($1, state.source)
 //@   callsite (*inlineState).addToRoot: requires[parsed] $1.kind != UnparsedKind && $1.kind != 0
+//@   callsite (*inlineState).addToRoot: requires[boundary] ($1.kind == CharacterReferenceKind || $1.kind == AutolinkKind || $1.kind == SoftLineBreakKind || $1.kind == HardLineBreakKind) ==> SpanOnBoundaries($1, state.source)
+//@   callsite (*inlineState).addToRoot: requires[nested] $1.kind == AutolinkKind ==> ($1.span.Start <= $1.children[0].span.Start && $1.children[0].span.Start <= $1.children[0].span.End && $1.children[0].span.End <= $1.span.End)
+//@   callsite (*InlineParser).parseBackslash: requires[utf8] UTF8OK(state.source)
 //@   callsite (*InlineParser).parseBackslash: requires[at] source[pos] == '\\'
 //@   loop 0: invariant[state] !isnil(state) && !isnil(dummy) && state.root == dummy && state.parentMap != nil && aliases(state.source, source) && len(state.source) == len(source)
 //@   loop 1: invariant[state] !isnil(state) && !isnil(dummy) && state.root == dummy && state.parentMap != nil && aliases(state.source, source) && len(state.source) == len(source)
@@ -107,4 +124,4 @@ package commonmark
 //@   nosafety nil the unparsed nodes of a block are never nil (assumption A-NODEINV, C05)
 //@   nosafety range positions are bounded by the length of Source (assumption A-C02-1)
 //@   unclaimed dec the scanner's progress (every iteration consumes input) is not under contract here
-//@   serves C13, C05
+//@   serves C13, C05, C02
